@@ -40,16 +40,18 @@ class Interpreter:
         return self.interpret(contents, os.path.basename(filename))
 
     def interpret(self, script, filename, environment=None):
-        savedParent = None
+        attached = None
         if environment is None:
             env = self.environment
         else:
-            environment_ = environment
-            while environment_ and environment_.parent:
-                environment_ = environment_.parent
-            if environment_:
-                savedParent = environment_.parent
-                environment_.withParent(self.environment)
+            # the root of the caller's environment chain hangs under the
+            # session for the duration of this call only; a chain that
+            # already ends in this interpreter is left as it is
+            root = environment
+            while root.parent:
+                root = root.parent
+            if root is not self.base_environment:
+                attached = root.withParent(self.environment)
             env = environment
         try:
             result = parse_script(script, filename).evaluate(env)
@@ -69,9 +71,5 @@ class Interpreter:
                 )
             return result
         finally:
-            if savedParent:
-                environment_ = environment
-                while environment_ and environment_.parent:
-                    environment_ = environment_.parent
-                if environment_:
-                    environment_.withParent(savedParent)
+            if attached is not None:
+                attached.withParent(None)
